@@ -94,9 +94,19 @@ Ltac pose_len_facts :=
          | s : stream |- _ =>
              lazymatch goal with _ : 0 <= len s |- _ => fail | _ => pose proof (len_nonneg s) end
          end.
-Ltac fin := cbn [fst snd] in *; pose_len_facts; cbn [fst snd] in *; try lia.
+(* boolean tests that say nothing about lengths (type codes, flags, enum membership) only slow lia down
+   (the 4-character codes are large constants) *)
+Ltac clear_bool :=
+  repeat match goal with
+         | E : ?b = true |- _ => lazymatch b with context [len] => fail | context [length] => fail | _ => clear E end
+         | E : ?b = false |- _ => lazymatch b with context [len] => fail | context [length] => fail | _ => clear E end
+         end.
+Ltac fin := cbn [fst snd] in *; pose_len_facts; cbn [fst snd] in *; clear_bool; try lia.
 (* close a goal [len (snd x) + p <= len s] from [H : Ok (..) = Ok x] *)
-Ltac done_ok H := injection H as <-; fin.
+Lemma ok_inj {A} (a b : A) : Ok a = Ok b -> a = b.
+Proof. congruence. Qed.
+(* [injection] would normalise the terms (and unfold read_upto on a literal count) *)
+Ltac done_ok H := apply ok_inj in H; subst; fin.
 
 (* ---- the primitives of Psd/Codec.v *)
 Global Instance take_prog n : Prog (take n) (Z.to_nat n).
